@@ -137,6 +137,9 @@ def parseHeapOp (words : List String) : Option HeapOp :=
   | ["cons", d, a, b]  => do pure (.cons (← d.toNat?) (← slotArg a) (← slotArg b))
   | ["trap", d, a, b]  => do pure (.trap (← d.toNat?) (← slotArg a) (← slotArg b))
   | ["sym", d, n]      => do pure (.sym (← d.toNat?) (← unhexChars n))
+  -- the printed name of a generated symbol, interned: the model prints the address as `0x?` (the harness uses this for at most
+  -- one generated symbol per history, so the masked name stands for exactly one real name)
+  | ["symprint", d, _] => do pure (.sym (← d.toNat?) cs!"#<symbol-0x?>")
   | ["gensym", d]      => do pure (.gensym (← d.toNat?))
   | ["fn", d, k, r, b, e, m, ps] => do
       let params ← if ps == "-" then some [] else (ps.splitOn ",").mapM String.toNat?
